@@ -215,6 +215,10 @@ func (l *List) M__setitem__(key, value Object) (Object, error) {
 			return nil, err
 		}
 		if step == 1 {
+			if stop < start {
+				// l[5:2] = v inserts before 5 and replaces nothing
+				stop = start
+			}
 			// Make a copy of the tail
 			tailSlice := l.Items[stop:]
 			tail := make([]Object, len(tailSlice))
@@ -262,6 +266,10 @@ func (a *List) M__delitem__(key Object) (Object, error) {
 			return nil, err
 		}
 		if step == 1 {
+			if stop < start {
+				// del l[5:2] deletes nothing
+				stop = start
+			}
 			a.Items = append(a.Items[:start], a.Items[stop:]...)
 		} else {
 			j := 0
